@@ -102,15 +102,30 @@ class TypingAlias(PyModel):
                 flat.extend(a.__args__)       # Union[Union[a, b], c] is Union[a, b, c]
             else:
                 flat.append(a)
+        if origin == Ref('ext:typing.Union'):
+            dedup = []
+            for a in flat:
+                if a not in dedup:
+                    dedup.append(a)           # Union[a, b, a] is Union[a, b]
+            flat = dedup
         self.__args__ = tuple(flat)
 
+    def _is_union(self):
+        return self.__origin__ == Ref('ext:typing.Union')
+
     def __eq__(self, other):
-        return isinstance(other, TypingAlias) and other.__origin__ == self.__origin__ and other.__args__ == self.__args__
+        if not isinstance(other, TypingAlias) or other.__origin__ != self.__origin__:
+            return False
+        if self._is_union():
+            return set(other.__args__) == set(self.__args__)       # unions compare as sets of their members
+        return other.__args__ == self.__args__
 
     def __ne__(self, other):
         return not self.__eq__(other)
 
     def __hash__(self):
+        if self._is_union():
+            return hash(('TypingAlias', self.__origin__, frozenset(self.__args__)))
         return hash(('TypingAlias', self.__origin__, self.__args__))
 
     def __repr__(self):
@@ -1821,6 +1836,16 @@ class Interp:
                     return not self.truth(res)
         if isinstance(left, Opaque) or isinstance(right, Opaque):
             raise Unmodelled(f'comparison with opaque value: {ast.unparse(node)[:60] if node is not None else ""}')
+        if type(left) is type(right) and isinstance(left, (list, tuple)) and any(isinstance(x_, Rec) for x_ in list(left) + list(right)):
+            # sequences of abstract instances: Python's element-wise protocol (identity, then the elements' own ==)
+            same_ = lambda x_, y_: x_ is y_ or self.truth(self._compare(ast.Eq(), x_, y_, None))    # noqa: E731
+            if isinstance(op, (ast.Eq, ast.NotEq)):
+                eq_ = len(left) == len(right) and all(same_(x_, y_) for x_, y_ in zip(left, right))
+                return eq_ if isinstance(op, ast.Eq) else not eq_
+            for x_, y_ in zip(left, right):
+                if not same_(x_, y_):
+                    return self._compare(op, x_, y_, None)
+            return _CMP[type(op)](len(left), len(right))
         try:
             return _CMP[type(op)](left, right)
         except TypeError:
@@ -2474,6 +2499,8 @@ def _aggregate(self, name, args, kwargs):
                 best = x
         return best
     # sorted: insertion sort with <
+    if kwargs.get('reverse'):
+        seq.reverse()           # Python's stable descending sort: reverse, sort ascending stably, reverse
     out = []
     for x in seq:
         i = len(out)
